@@ -325,10 +325,19 @@ Harmless(c, s, f) ==
      \/ ~Effective(c, s, f)
      \/ D(c, f) = "benign"
 
-Ref(c, s) == IF Culprits(c, s) # {} THEN "must_raise"
+\* A needed metadata file / list / manifest that still PARSES but to other content (swap) sends the
+\* reader to a different file graph: the statement's premise ("reachable from the current
+\* snapshot") is no longer what any reader can see, so nothing downstream is judged either.
+Redirected(c, s) ==
+  \E f \in Damaged(c) : /\ Kind(f) \in {"meta", "list", "manifest"}
+                        /\ f \in Needed(c.api, c.filt)
+                        /\ D(c, f) = "swap"
+
+Ref(c, s) == IF Redirected(c, s) THEN "unconstrained"
+             ELSE IF Culprits(c, s) # {} THEN "must_raise"
              ELSE IF \A f \in Damaged(c) : Harmless(c, s, f) THEN "full_or_raise"
-             ELSE "unconstrained"      \* damage that still parses to other content (swap, altered
-                                       \* without verification) or hint damage: observed, not judged
+             ELSE "unconstrained"      \* damage that still parses to other content (altered / swapped
+                                       \* data without verification) or hint damage: observed, not judged
 
 ExpectedRows(filt) == {r \in UNION {Rng(RowsOf[d]) : d \in CurData} : r \in Sel[filt]}
 Expected(c) == CASE c.api = "cursnap" -> {CurMeta}
